@@ -33,8 +33,15 @@ func selectPoints(c *sim.RunCtx, pts []*crashPoint, maxPoints int) []*crashPoint
 	chosen := map[int]bool{}
 	// always the first and the last
 	chosen[0], chosen[len(pts)-1] = true, true
-	for len(chosen) < maxPoints {
+	// (bounded: an exhausted replay tape answers 0 for ever)
+	for i := 0; i < 2*maxPoints && len(chosen) < maxPoints; i++ {
 		chosen[t.Choose(len(pts))] = true
+	}
+	for i := 0; len(chosen) < maxPoints; i++ {
+		chosen[(i*len(pts))/maxPoints] = true
+		if i > len(pts) {
+			break
+		}
 	}
 	var out []*crashPoint
 	for i, p := range pts {
